@@ -1,0 +1,7 @@
+//go:build !verif
+
+package parse
+
+func verifLexEmit(l *lexer, typ itemType, pos, end Pos) {}
+func verifLexRecv(l *lexer, it item)                    {}
+func verifLexExit(l *lexer)                             {}
